@@ -68,6 +68,11 @@ func (v *Vue) evalElseIfChain(ctx VueContext, node *html.Node, nodes []*html.Nod
 	lastChainNodeIdx := 0 // Track the last node in the chain for skipCount
 
 	// Check for v-if
+	if !helpers.HasAttr(node, "v-if") {
+		// No v-if attribute found - shouldn't happen, but handle gracefully
+		return result, lastChainNodeIdx, nil
+	}
+	// An empty condition has no value: it is falsy, and the chain goes on to its else members
 	if vIf := helpers.GetAttr(node, "v-if"); vIf != "" {
 		ok, err := v.evalCondition(ctx, vIf)
 		if err != nil {
@@ -80,9 +85,6 @@ func (v *Vue) evalElseIfChain(ctx VueContext, node *html.Node, nodes []*html.Nod
 			return evaluated, chainEnd(nodes, 0), err
 		}
 		// v-if condition is false - check next nodes for v-else-if or v-else
-	} else {
-		// No v-if attribute found - shouldn't happen, but handle gracefully
-		return result, lastChainNodeIdx, nil
 	}
 
 	// Check for v-else-if and v-else in following nodes
